@@ -85,6 +85,10 @@ func checkData(w *world, img *memory.Database, wantSDL bool) (res *mismatch, eva
 func (k *imgChecker) checkBlock(b *chaingen.Block, wantSDL bool) {
 	bc := k.bc
 	num := b.B.Number
+	if raw, err := bc.TransactionsByBlockNumber(num); err == nil && len(raw) == 0 && len(b.B.Transactions) > 0 {
+		k.evals++
+		k.fail("data_lost", "block_transactions_emptied", "block %d had %d transactions before the upgrade; TransactionsByBlockNumber now returns an empty list (header TransactionCount=%d)", num, len(b.B.Transactions), b.B.TransactionCount)
+	}
 	blk, err := bc.BlockByNumber(num)
 	k.eq("BlockByNumber", b.B, blk, err)
 	blk, err = bc.BlockByHash(b.B.Hash)
